@@ -229,6 +229,17 @@ def evaluate(cfg):
 
         res.fail(crash_bucket(exc), "window without a scheduled season: %s  [%s]" % (type(exc).__name__, describe(cfg)))
         return res
+    if res.outcome == "rejected":
+        # a documented rejection is permitted only where its documented condition holds (reference computation
+        # from the configuration: degree-day sums to the end of the window, dates, coverage)
+        from .common import rejection_justified
+
+        for lab in sorted(l[9:] for l in res.labels if l.startswith("rejected:")):
+            ok = rejection_justified(cfg, lab)
+            res.labels.add("rejection_%s:%s" % ({True: "justified", False: "UNJUSTIFIED", None: "undecided"}[ok], lab))
+            if ok is False:
+                res.fail("unjustified_rejection:" + lab, "rejected with %s: %s -- but the configuration does not meet the documented condition  [%s]" % (
+                    type(exc).__name__, str(exc)[:140], describe(cfg)))
     if tr.overrun:
         res.fail("no_termination", "more steps than days in the window")
     idx, n = rows(tr)
